@@ -176,7 +176,7 @@ def compatible(con, box):
 def gen_prim_term(rng, solver, clock=True, interrupt=True, gnt=False):
     pool = ['VTR', 'COG', 'NCOG', 'SolutionImprovement', 'NormalizedCostTarget', 'VTRCOG',
             'PopulationSpread', 'EvaluationLimits', 'COG', 'NCOG', 'VTR']
-    if gnt: pool += ['GradientNormTolerance', 'GradientNormTolerance']
+    if gnt: pool += ['GradientNormTolerance', 'GradientNormTolerance', 'CollapseAt', 'CollapseAs']
     if solver != 'Powell': pool.append('CRT')
     if clock: pool += ['TimeLimits', 'TimeLimits']
     if interrupt: pool.append('SolverInterrupt')
@@ -193,6 +193,11 @@ def gen_prim_term(rng, solver, clock=True, interrupt=True, gnt=False):
     elif t == 'PopulationSpread': kw = {'tolerance': tol()}
     elif t == 'EvaluationLimits':
         kw = {'generations': rng.choice([None, 0, 1, 3, 8, 20]), 'evaluations': rng.choice([None, 1, 10, 40, 200])}
+    elif t in ('CollapseAt', 'CollapseAs'):
+        # (what they detect is C11's business; here they are conditions like any other: info/'self' forms, rebuild from
+        # type()/state(), and being left untouched when a copy with a grown mask is derived from them)
+        kw = {'tolerance': rng.choice([1e-2, 0.1, 1.0, 10.0]), 'generations': rng.choice([1, 2, 3]),
+              'mask': {'__set__': sorted(rng.sample(range(6), rng.randint(1, 2)))} if rng.random() < 0.7 else None}
     elif t == 'GradientNormTolerance':
         kw = {'tolerance': rng.choice([1e-3, 0.1, 1.0, 10.0, 100.0]), 'norm': rng.choice(['inf', 'inf', 2, 1])}
     elif t == 'TimeLimits':
